@@ -261,6 +261,7 @@ def check_run(r, name, outdir, radix, sharefmt, files_trace, acc, label):
     # rule 2: listing is a sub-sequence of the trace
     if lst is not None:
         L = parse_listing(lst, radix)
+        matched_recs = set()
         ti = 0
         code_recs = [x for x in final if x["raw"] and not x["dp"]]
         for line, addr, words, field in L:
@@ -292,9 +293,29 @@ def check_run(r, name, outdir, radix, sharefmt, files_trace, acc, label):
                     vs.append(("C19/listing-bytes", "%s: line %d lists %s, emitted %s" % (label, line, ["%x" % v for v in got[:8]], ["%x" % v for v in near[2][:8]])))
                 break
             ti = found + 1
+            matched_recs.add(id(x))
             acc["probes"]["listing_lines_matched"] = acc["probes"].get("listing_lines_matched", 0) + 1
             if len(got) > 6:
                 nontrivial = True
+    # rule 2b: a main-file source line that the listing shows at all must show the code emitted for it (outside of
+    # macro/repetition expansions, whose lines may be suppressed): it must not show something else in the code column
+    if lst is not None and not vs:
+        main_rows = {}
+        for ln in lst.split(b"\n"):
+            if b"Symbol Table (* = unused)" in ln:
+                break
+            m = RE_LST.match(ln)
+            if m and ln.startswith(b"   "):
+                main_rows.setdefault(int(m.group(1)), []).append(m.group(4)[:LISTLINESPACE])
+        mainfile = files_trace["name"]
+        for x in final:
+            if x["raw"] and not x["dp"] and not x["inmac"] and x["file"] == mainfile and x["line"] in main_rows and id(x) not in matched_recs:
+                rows = main_rows[x["line"]]
+                if any(r.strip() for r in rows):
+                    vs.append(("C19/listed-line-shows-no-code", "%s: source line %d is listed, emitted %d byte(s) at %x, but its code column shows %r"
+                               % (label, x["line"], len(x["raw"]), x["pc"] + x["phase"], [r.decode("latin1").strip() for r in rows][:3])))
+                    break
+                acc["probes"]["listed_line_blank_code_column"] = acc["probes"].get("listed_line_blank_code_column", 0) + 1
     # rule 3: MAP line info
     if mp is not None:
         entries, msyms = parse_map(mp)
@@ -441,6 +462,22 @@ def run_case(sim, case):
     else:
         for _ in range(case["n"]):
             src = gen_program(rng)
+            # listing-control variations: statements that fill the listing's alternative column (SET, IF, macro calls)
+            # inside expansions whose lines are suppressed, followed by ordinary code lines
+            lines = src.split("\n")
+            ctl = rng.choice(["", "", "\tmacexp off", "\tmacexp_dft noif,nomacro", "\tmacexp_dft nomacro", "\tlisting noskipped", "\tlisting purecode"])
+            dbs = lines[0].split()[-1]
+            dbs = {"z80": "db", "8051": "db", "6502": "byt", "6809": "fcb"}.get(dbs, "db")
+            extra = ["cnt\tset 0", "bump\tmacro", "cnt\tset cnt+1", "\tif cnt>1", "\t%s 9" % dbs, "\tendif", "\tendm"]
+            if ctl:
+                extra.insert(0, ctl)
+            body = []
+            for ln in lines[2:]:
+                body.append(ln)
+                if ln.startswith("\t") and rng.chance(0.2) and not ln.startswith(("\tif", "\telse", "\tendif", "\trept", "\tendm", "\tshared")):
+                    body.append("\tbump")
+                    body.append("\t%s cnt" % dbs)
+            src = "\n".join(lines[:2] + extra + body)
             if rng.chance(0.5):
                 src = src.replace("\tshared", "\tphase 4096\nphl:\tdb 1,2\n\tdephase\n\tshared", 1) if "\tshared" in src else src + "\tphase 4096\nphl:\tdb 1,2\n\tdephase\n"
             one("gen", {"/w/t/gen.asm": src.encode()}, [], False)
